@@ -30,7 +30,9 @@ Print Assumptions C01_cascade_tables.
    Side conditions (line_ok): identifiers are Fortran names that do not contain the words "function"
    or "subroutine" (what the two unanchored patterns look for); a construct name does not begin
    with a statement keyword; the name of a function result does not contain "bind"; lists are not
-   empty; and the spelling is none of the three of CascadeSpec.known_region (refuted below). *)
+   empty; a statement label is a non-empty run of digits.  There is no spelling left outside: the
+   three that were (FINAL without "::", "end blockdata", an END statement with a label) are ordinary
+   cases since FORD was repaired, see the examples below. *)
 Theorem C01_dispatch : forall k incontains level0 l,
   line_ok l = true -> place_ok k incontains level0 l = true ->
   exists branch, classify (mkctx k incontains level0) (render l) = Fired branch (stmt_of l).
@@ -47,38 +49,40 @@ Theorem C01_dispatch_examples :
      (KType, true, true, XBound [] [true] 1 0 1 1 1 [(s "draw", s "draw_impl"); (s "scale", s "scale_impl")]);
      (KSubroutine, false, true, XDecl (mkts [true] [] 1 1 1 1 0 0) (ANum BReal (Some (s "dp"))) (Some 0) 1 [s "a"; s "b"]);
      (KSubroutine, false, true, XEndUnit None [true; true; true] [] 0 1 ESubroutine (Some (1, s "solve")));
-     (KProgram, false, false, XBlock (Some (s "outer", 0, 1)) [true])] = true.
+     (KProgram, false, false, XBlock (Some (s "outer", 0, 1)) [true]);
+     (KType, true, true, w_final); (KBlockData, false, true, w_end_blockdata); (KSubroutine, false, true, w_labelled_end);
+     (KModule, false, true, XProgram [] (Some (0, s "p")))] = true.
 Proof. exact dispatch_examples. Qed.
 Print Assumptions C01_dispatch_examples.
 
-(* The same statement for ALL spellings is false: FORD does not recognise ... *)
-Definition C01_dispatch_statement_all_spellings : Prop := dispatch_statement_all_spellings.
-Theorem C01_dispatch_refuted_all_spellings : ~ C01_dispatch_statement_all_spellings.
-Proof. exact dispatch_refuted_all_spellings. Qed.
-Print Assumptions C01_dispatch_refuted_all_spellings.
-(* ... a FINAL statement without "::" (the finalizer is silently dropped), *)
-Theorem C01_dispatch_witness_final :
-  render w_final = s "final f1" /\ line_shape_ok w_final = true /\ place_ok KType true true w_final = true /\
-  classify (mkctx KType true true) (render w_final) = Fired (s "tail") SNoop.
-Proof. exact witness_final. Qed.
-Print Assumptions C01_dispatch_witness_final.
-(* ... END BLOCK DATA written "end blockdata" (the unit is never closed), *)
-Theorem C01_dispatch_witness_end_blockdata :
-  render w_end_blockdata = s "end blockdata bd" /\ line_shape_ok w_end_blockdata = true /\
-  classify (mkctx KBlockData false true) (render w_end_blockdata) = Fired (s "tail") SNoop.
-Proof. exact witness_end_blockdata. Qed.
-Print Assumptions C01_dispatch_witness_end_blockdata.
-(* ... an END statement with a statement label (taken for the first line of a new subroutine) *)
-Theorem C01_dispatch_witness_labelled_end :
-  render w_labelled_end = s "99 end subroutine sub" /\ line_shape_ok w_labelled_end = true /\
-  classify (mkctx KSubroutine false true) (render w_labelled_end) = Fired (s "SUBROUTINE_RE") (SUnit KSubroutine (s "sub")).
-Proof. exact witness_labelled_end. Qed.
-Print Assumptions C01_dispatch_witness_labelled_end.
-
-(* No stealing, for executable statements: "an assignment is never taken for an entity" is false --
-   INTERFACE_RE accepts any text behind the keyword, so an assignment to a variable named
-   `interface` opens an interface block. *)
-Definition C01_assignment_statement_noise : Prop := assignment_statement_noise.
-Theorem C01_assignment_refuted_interface : ~ C01_assignment_statement_noise.
-Proof. exact assignment_refuted_interface. Qed.
-Print Assumptions C01_assignment_refuted_interface.
+(* Regression witnesses of repaired defects: the lines on which the chain went wrong.
+   A FINAL statement without "::" (the finalizer was silently dropped), *)
+Theorem C01_dispatch_fixed_final :
+  render w_final = s "final f1" /\ line_ok w_final = true /\ place_ok KType true true w_final = true /\
+  classify (mkctx KType true true) (render w_final) = Fired (s "FINAL_RE") (SLeaf LFinal [s "f1"]).
+Proof. exact final_fixed. Qed.
+Print Assumptions C01_dispatch_fixed_final.
+(* ... END BLOCK DATA written "end blockdata" (the unit was never closed), *)
+Theorem C01_dispatch_fixed_end_blockdata :
+  render w_end_blockdata = s "end blockdata bd" /\ line_ok w_end_blockdata = true /\
+  classify (mkctx KBlockData false true) (render w_end_blockdata) = Fired (s "END_RE") (SEnd EndPlain).
+Proof. exact end_blockdata_fixed. Qed.
+Print Assumptions C01_dispatch_fixed_end_blockdata.
+(* ... an END statement with a statement label (was taken for the first line of a new subroutine), *)
+Theorem C01_dispatch_fixed_labelled_end :
+  render w_labelled_end = s "99 end subroutine sub" /\ line_ok w_labelled_end = true /\
+  classify (mkctx KSubroutine false true) (render w_labelled_end) = Fired (s "END_RE") (SEnd EndPlain).
+Proof. exact labelled_end_fixed. Qed.
+Print Assumptions C01_dispatch_fixed_labelled_end.
+(* ... an assignment to a variable named `interface` (opened an interface block: INTERFACE_RE
+   accepted any text behind the keyword), *)
+Theorem C01_assignment_fixed_interface :
+  classify (mkctx KSubroutine false true) (s "interface" ++ s " = " ++ s "n") = Fired (s "tail") SNoop.
+Proof. exact interface_assignment_fixed. Qed.
+Print Assumptions C01_assignment_fixed_interface.
+(* ... a PROGRAM statement inside another unit (AttributeError in the PROGRAM branch: the model had
+   no outcome for it; now the branch reports the statement and the chain goes on). *)
+Theorem C01_dispatch_fixed_program_inside_unit :
+  classify (mkctx KModule false true) (s "program p") = Fired (s "PROGRAM_RE") (SUnit KProgram (s "p")).
+Proof. exact program_inside_unit_fixed. Qed.
+Print Assumptions C01_dispatch_fixed_program_inside_unit.
